@@ -248,6 +248,10 @@ Apply0(s, op) ==
     [] op.k = "query" -> Plain(Query(s, op.ser, op.fl, op.q, op.n))
     [] op.k = "ping" -> Plain(Query(s, op.ser, 0, "ping", <<>>))
     [] op.k = "addmatch" -> Plain(AddMatch(s, op.ser, op.fl, op.rule))
+    \* (the driver rewrote the configuration file with op.cfg before calling ReloadConfig)
+    [] op.k = "reload" -> \E p \in PolicyChoices(op.cfg.policy) :
+                             /\ ReloadConfig(s, op.ser, op.fl, [MkCfg(op.cfg) EXCEPT !.policy = p])
+                             /\ devs' = devs \cup PrunedDev(p) /\ UNCHANGED qfull
     [] op.k = "rmmatch" -> \/ Plain(RemoveMatch(s, op.ser, op.fl, op.rule))
                            \/ Dev("RemoveMatchAckThenError", Dev_RemoveMatchAckThenError(s, op.ser, op.fl, op.rule))
     [] op.k \in {"stall", "unstall"} -> Plain(Nop)
